@@ -575,7 +575,15 @@ func immutableValue(x ssa.Value) bool {
 	case *ssa.MakeInterface:
 		return immutableValue(x.X)
 	case *ssa.MakeClosure, *ssa.Call:
-		return immutableFuncValue(x, 0) // ext_x5.go
+		// a closure over variables that are never written again and hold no references, also as the
+		// result of the function that makes it (ext_x5.go, ext_x10.go: two derivations of the same fact)
+		if immutableFuncValue(x, 0) || frozenFuncValueX10(x, 0) {
+			return true
+		}
+	case *ssa.Phi:
+		if frozenFuncValueX10(x, 0) {
+			return true
+		}
 	}
 	return !isPointerLike(x.Type()) && !isAggregateWithRefs(x.Type())
 }
